@@ -483,7 +483,12 @@ fn gen_cb_prog(src: &mut Src, m: &Message, sec: usize, s: &mut ScriptBuf, st: &m
             8 => {
                 p.u8(0x29);
                 let mut f = vec![];
-                let text = if src.chance(50) { (*src.pick(&["a..b", "", ".", "x.", "-bad-.example", "UPPER.Example"])).as_bytes().to_vec() } else { rrtext::gen_host(src, 200, &mut f, true).0.into_bytes() };
+                // incl. names the string conversion lets through but the validator behind set_raw_name refuses
+                let text = if src.chance(70) {
+                    (*src.pick(&[&b"a..b"[..], b"", b".", b"x.", b"-bad-.example", b"UPPER.Example", b"back\\slash.example", b"bell\x07.example", b"sp ace.example", b"nul\x00.example", b"tab\there", b"del\x7f.x"])).to_vec()
+                } else {
+                    rrtext::gen_host(src, 200, &mut f, true).0.into_bytes()
+                };
                 if src.chance(50) {
                     // rewrite the opcode just pushed: non-NULL zero-length zone variant
                     let l = p.bytes.len();
@@ -492,11 +497,18 @@ fn gen_cb_prog(src: &mut Src, m: &Message, sec: usize, s: &mut ScriptBuf, st: &m
                     st.class("cb:set_name-empty-zone-buffer");
                 } else {
                     p.blob(&text);
-                    let zone = match src.below(3) {
+                    let zone = match src.below(7) {
                         0 => vec![],
-                        1 => Name::from_dotted("zone.example").to_wire(),
-                        _ => Name::root().to_wire(),
+                        1 | 2 => Name::from_dotted("zone.example").to_wire(),
+                        3 => Name::root().to_wire(),
+                        // zones that are not well-formed raw names: a pointer, no terminator, a forbidden byte
+                        4 => vec![4, b'z', b'o', b'n', b'e', 0xc0, 0x0c],
+                        5 => vec![4, b'z', b'o', b'n', b'e'],
+                        _ => vec![3, b'z', b'.', b'e', 0],
                     };
+                    if zone.len() > 1 && zone != Name::from_dotted("zone.example").to_wire() {
+                        st.class("cb:set_name-malformed-zone");
+                    }
                     p.blob(&zone);
                 }
                 st.class("cb:set_name");
@@ -1017,6 +1029,6 @@ pub fn check_c15(ctx: &Ctx, known: &KnownFindings) -> Report {
             }
         }
     }
-    rep.require(&["driver-compiled-against-shipped-header", "top:iter", "top:iter_edns", "top:add", "top:rename", "cb:set_rr_ttl", "cb:set_rr_ip", "cb:set_raw_name", "cb:set_name", "cb:set_name-empty-zone-buffer", "cb:delete_rr", "call-after-callback-mutation", "failing-call", "opt:First", "opt:Middle", "opt:Last", "start:exactly-8192-bytes", "start:exactly-8191-bytes", "start:exactly-8193-bytes"]);
+    rep.require(&["driver-compiled-against-shipped-header", "top:iter", "top:iter_edns", "top:add", "top:rename", "cb:set_rr_ttl", "cb:set_rr_ip", "cb:set_raw_name", "cb:set_name", "cb:set_name-empty-zone-buffer", "cb:set_name-malformed-zone", "cb:delete_rr", "call-after-callback-mutation", "failing-call", "opt:First", "opt:Middle", "opt:Last", "start:exactly-8192-bytes", "start:exactly-8191-bytes", "start:exactly-8193-bytes"]);
     rep
 }
